@@ -168,7 +168,7 @@ def compare(job, r, mline):
         return None
     if r["exc"] is not None:
         return f"implementation raises {r['exc']}, model succeeds"
-    head, mrecs, erecs = [x.strip() for x in mline.split("|")]
+    head, mrecs, erecs = [x.strip() for x in mline.split("|")][:3]
     _, mi, mj, md, mss, left = head.split()
     f = r["files"] or {}
     for nm, mv in (("int", mi), ("jit", mj), ("data", md), ("ss", mss)):
@@ -200,6 +200,7 @@ def run_gen_slice(ctx, n_cfg=None, variants=VARIANTS, policies=True, label="gene
     rng = random.Random(ctx.seed * 7368787 + 31)
     big = (not ctx.quick()) or ctx.deep
     n = n_cfg or (120 if big else 8)
+    big = not ctx.quick()
     jobs = []
     for v in variants:
         for k in range(n):
